@@ -65,7 +65,10 @@ class Len(SObj):
             return NotImplemented
         a, b = (o, self.val) if reflected else (self.val, o)
         if op == '+':
-            return Len(a + b)
+            r = Len(a + b)
+            r.in_loop = getattr(self, 'in_loop', False)
+            r.attrs['arguments'] = self.attrs.get('arguments', ())
+            return r
         if op == '-':
             return Len(a - b)
         if op == '*':
@@ -204,6 +207,7 @@ class Node(SObj):
         self.env = env
         self.name = cls
         self.methods['super().__post_init__'] = lambda ctx, s: s._super_post_init(ctx)
+        self.methods['super()._compile'] = lambda ctx, s, builder: s._super_call(ctx, '_compile', builder)
 
     def _super_post_init(self, ctx):
         names = mro(self.clsname)
@@ -212,6 +216,13 @@ class Node(SObj):
             if m and m[0] == 'def':
                 return self.env.call(m[1].ref, self)
         return None
+
+    def _super_call(self, ctx, name, *args):
+        for base in mro(self.clsname)[1:]:
+            m = find_member(base, name)
+            if m and m[0] == 'def':
+                return self.env.call(m[1].ref, self, *args)
+        raise Unsupported('super().%s' % name)
 
     def getattr(self, ctx, name):
         if name in self.attrs or name in self.methods:
@@ -469,6 +480,11 @@ class Builder:
                     return tuple(PX(valof(ctx, d)) for d in x)
                 return PX(valof(ctx, x))
             return compile_
+        if name == 'ndependents':
+            class _ND:
+                def sym_getitem(self_, ctx, k):
+                    return 2  # every dependency is shared: no in-place fusion (the fused paths are not under contract)
+            return _ND()
         if name == 'get_variable_for_evaluable':
             return lambda ctx, e: PXVar()
         if name == 'get_block_for_evaluable':
@@ -510,6 +526,7 @@ class Env:
     def __init__(self, S, cx):
         self.S, self.cx = S, cx
         self.call = None
+        self.indices = {}
 
     def globals(self):
         g = {}
@@ -541,6 +558,12 @@ class Env:
         g['Maximum'] = ClassRef('Maximum', construct=self.c_maximum)
         g['_LoopIndex'] = ClassRef('_LoopIndex', construct=self.c_loopindex)
         g['util'] = _Mod({'untake': untake}, 'util')
+        g['types'] = _Mod({'frozenmultiset': ClassRef('frozenmultiset')}, 'types')
+        g['loop_concatenate'] = lambda ctx, func, index: self.call('evaluable:loop_concatenate', func, index)
+        g['InsertAxis'] = ClassRef('InsertAxis', construct=self.v_insertaxis)
+        g['_SizesToOffsets'] = ClassRef('_SizesToOffsets', construct=self.v_offsets)
+        g['Take'] = ClassRef('Take', construct=self.v_take)
+        g['LoopConcatenate'] = ClassRef('LoopConcatenate', construct=self.v_loopconcatenate)
         g['isunit'] = self.isunit
         g['assert_equal_tuple'] = lambda ctx, a, b: self.call('evaluable:assert_equal_tuple', a, b)
         g['asarray'] = lambda ctx, x: x if isinstance(x, (Arr, Len, Node)) else _unsupported('asarray(%r)' % (x,))
@@ -553,6 +576,56 @@ class Env:
     def nonneg(self, ctx, x):
         # _isindex: _intbounds[0] >= 0.  Every Len the configurations create is constrained >= 0; derived ones are checked
         return True
+
+    # -- value-level meanings of the nodes `loop_concatenate` builds (1-d integer vectors given by an element function)
+    def v_insertaxis(self, ctx, func, length):
+        if not (isinstance(func, Len) and isinstance(length, Len)):
+            raise Unsupported('InsertAxis(%r, %r) inside loop_concatenate' % (func, length))
+        ctx.used_axioms.add('InsertAxis(x, n) of a scalar x is the vector of n copies of x')
+        r = Arr('InsertAxis', [length], INT)
+        r.elem = lambda k: func.val
+        r.const_elem = func.val if not getattr(func, 'in_loop', False) else None
+        r.per_iteration = getattr(func, 'at_iteration', None)
+        r.in_loop = getattr(func, 'in_loop', False)
+        r.attrs['arguments'] = func.attrs.get('arguments', ())
+        return r
+
+    def v_offsets(self, ctx, sizes):
+        if not hasattr(sizes, 'elem'):
+            raise Unsupported('_SizesToOffsets(%r)' % (sizes,))
+        n = sizes.getattr(ctx, 'shape')[0]
+        r = Arr('_SizesToOffsets', [Len(n.val + 1, 'n+1')], INT)
+        if getattr(sizes, 'const_elem', None) is not None:
+            c = sizes.const_elem
+            ctx.used_axioms.add('numpy.cumsum([0, c, c, ..]): the k-th prefix sum of a constant vector is k*c')
+            r.elem = lambda k: k * c
+        else:
+            OFF = z3.Function(ctx.name('offsets'), z3.IntSort(), z3.IntSort())
+            a, b = z3.Int('a!off'), z3.Int('b!off')
+            ctx.assume(z3.And(OFF(0) == 0,
+                              z3.ForAll([a], z3.Implies(z3.And(0 <= a, a < n.val), OFF(a + 1) == OFF(a) + sizes.elem(a))),
+                              z3.ForAll([a, b], z3.Implies(z3.And(0 <= a, a <= b, b <= n.val), OFF(a) <= OFF(b)))),
+                       axiom='L-CUMSUM: offsets = numpy.cumsum([0, *sizes]): offsets[0] = 0, offsets[k+1] = offsets[k] + sizes[k]; monotone for sizes >= 0')
+            r.elem = lambda k: OFF(k)
+        return r
+
+    def v_take(self, ctx, func, indices):
+        if not (hasattr(func, 'elem') and isinstance(indices, Len)):
+            raise Unsupported('Take(%r, %r) inside loop_concatenate' % (func, indices))
+        ctx.used_axioms.add('Take(v, i) of a vector at a scalar index evaluates to v[i]')
+        r = Len(func.elem(indices.val), 'taken')
+        r.in_loop = getattr(indices, 'in_loop', False)
+        r.attrs['arguments'] = indices.attrs.get('arguments', ())
+        return r
+
+    def v_loopconcatenate(self, ctx, loop_id, length, func, start, stop, concat_length):
+        node = self.new_node(ctx, 'LoopConcatenate', loop_id=loop_id, length=length, func=func, start=start, stop=stop, concat_length=concat_length)
+        per = getattr(func, 'per_iteration', None)
+        if per is not None:
+            # LoopConcatenate of the one-element chunks [x_i] is the vector (x_0, .., x_{n-1})   (value meaning, cross-checked in native/axioms.py)
+            ctx.used_axioms.add('loop_concatenate of one-element chunks [x_i] evaluates to the vector (x_0 .. x_{n-1})')
+            node.elem = lambda k: per(k)
+        return node
 
     def new_node(self, ctx, cls, **fields):
         node = Node(cls, self, **fields)
@@ -617,6 +690,8 @@ class Env:
         return Len(z3.If(a.val >= b.val, a.val, b.val), 'maximum')
 
     def c_loopindex(self, ctx, loop_id, length):
+        if (id(loop_id), id(length)) in self.indices:
+            return self.indices[(id(loop_id), id(length))]  # DataClass equality is structural: this IS the loop's index node
         r = Len(z3.Int(ctx.name('loopindex')), 'loopindex')
         r.loop_id = loop_id
         r.in_loop = True
@@ -724,7 +799,7 @@ class Meta(InProc, Contract):
         here = os.path.dirname(os.path.dirname(os.path.abspath(__file__)))
         model = {k: v for k, v in ob.model.items() if not k.startswith('k!') and len(str(v)) < 40}
         return ("import sys; sys.path.insert(0, %r)\nfrom native import c06b\nc06b.run_meta(%r, %s, %s, %r)\n"
-                % (here, self.cls, json.dumps(self.cfg), json.dumps(model), ob.clause))
+                % (here, self.cls, json.dumps(dict(self.cfg, kinds=list(self.kinds)) if isinstance(getattr(self, 'kinds', None), tuple) and self.cls == 'Sign' else self.cfg), json.dumps(model), ob.clause))
 
 
 ALL = (BOOL, INT, FLOAT, COMPLEX)
@@ -987,6 +1062,131 @@ class SizesToOffsets(Meta):
         return dict(sizes=sizes)
 
 
+class FMS(Sym):
+    """types.frozenmultiset of two operands (iteration order arbitrary: the contract is symmetric in the operands)"""
+
+    def __init__(self, items):
+        self.items = tuple(items)
+
+    def iterate(self, ctx):
+        return list(self.items)
+
+    def length(self, ctx):
+        return len(self.items)
+
+    def isinstance_(self, ctx, types):
+        return any(getattr(t, '__name__', None) == 'frozenmultiset' for t in types)
+
+    def truth(self, ctx):
+        return bool(self.items)
+
+
+class Binary2(Meta):
+    """Multiply / Add: two operands of equal announced shape (AssertEqual per axis) and equal kind"""
+
+    def fields(self, cx):
+        r = self.cfg['rank']
+        k = fresh_kind(cx, 'funcs')
+        a = Arr('func1', [fresh_len(cx, 'func1.shape%d' % i) for i in range(r)], k)
+        b = Arr('func2', [fresh_len(cx, 'func2.shape%d' % i) for i in range(r)], k)
+        return dict(funcs=FMS((a, b)))
+
+
+class Multiply(Binary2):
+    cls = 'Multiply'
+
+
+class Add(Binary2):
+    cls = 'Add'
+
+
+class Power(Meta):
+    cls = 'Power'
+
+    def fields(self, cx):
+        r = self.cfg['rank']
+        k = fresh_kind(cx, 'func', (INT, FLOAT, COMPLEX))
+        lens = [fresh_len(cx, 'func.shape%d' % i) for i in range(r)]
+        power = Arr('power', [Len(l.val, 'same') for l in lens], k, extra=dict(_intbounds=(0, float('inf'))))
+        cx.used_axioms.add('Power: power.shape == func.shape (the constructor rejects only certainly different lengths; numpy.power broadcasts otherwise)')
+        return dict(func=Arr('func', lens, k), power=power)
+
+
+class Sign(Unary):
+    cls = 'Sign'
+    kinds = (INT, FLOAT)
+
+
+class SignRejected(Unary):
+    cls = 'Sign'
+    kinds = (COMPLEX,)
+    rejected = True
+
+
+class SignBool(Unary):
+    """PARKED: Sign of a boolean array is accepted by the constructor and announces bool, numpy.sign has no boolean loop"""
+    cls = 'Sign'
+    kinds = (BOOL,)
+
+
+class Zeros(Meta):
+    cls = 'Zeros'
+
+    def fields(self, cx):
+        return dict(shape=tuple(fresh_len(cx, 'shape%d' % i) for i in range(self.cfg['rank'])), dtype=Builtin(nps.KIND_NAMES[self.cfg['kind']]))
+
+
+class Guard(Unary):
+    cls = 'Guard'
+    field = 'fun'
+
+
+class WithDerivative(Unary):
+    cls = 'WithDerivative'
+
+    def fields(self, cx):
+        f = super().fields(cx)
+        f['var'] = SObj('Argument', classes=('Argument', 'DerivativeTargetBase', 'Array'), attrs=dict(shape=()))
+        f['derivative'] = fresh_arr(cx, 'derivative', self.cfg['rank'])
+        return f
+
+
+class LoopConcatenateHelper(Meta):
+    """LoopConcatenate built by the REAL `loop_concatenate(func, index)`: start / stop / concat_length come out of the REAL helper
+    (`_SizesToOffsets` of the chunk lengths, `Take` at index, index+1, length), with the node constructors it uses interpreted by
+    their value meaning (InsertAxis = constant vector, _SizesToOffsets = prefix sums, Take of a vector at a scalar = its element,
+    LoopConcatenate of one-element chunks = the vector of the per-iteration values).  No assumption on start/stop is made here."""
+    cls = 'LoopConcatenate'
+
+    def __init__(self, **cfg):
+        super().__init__(**cfg)
+        self.fn = 'evaluable:loop_concatenate'
+
+    def fields(self, cx):
+        return {}
+
+    def construct(self, cx, S, call):
+        r = self.cfg['rank']
+        i = loop_index(cx)
+        S.env.indices[(id(i.attrs['loop_id']), id(i.attrs['length']))] = i
+        lens = [fresh_len(cx, 'func.shape%d' % k) for k in range(r - 1)]
+        if self.cfg['chunk'] == 'constant':
+            last = Len(z3.IntVal(self.cfg.get('c', 2)), 'chunk')
+        else:
+            # the chunk length varies with the iteration: CH(k) >= 0 is its value at iteration k, CH(index) the current one
+            CH = z3.Function('chunk_length_at', z3.IntSort(), z3.IntSort())
+            k = z3.Int('k!ch')
+            cx.assume(z3.ForAll([k], CH(k) >= 0), axiom='a length is >= 0 at every iteration (_isindex)')
+            last = Len(CH(i.val), 'chunk')
+            last.at_iteration = CH
+            last.in_loop = True
+            last.attrs['arguments'] = (i,)
+        func = Arr('func', lens + [last], fresh_kind(cx, 'func'))
+        func.in_loop = True
+        func.attrs['arguments'] = (i,)
+        return call('evaluable:loop_concatenate', func, i)
+
+
 def loop_index(cx):
     n = fresh_len(cx, 'looplength')
     i = Len(cx.int('loopindex'), 'loopindex')
@@ -1064,11 +1264,12 @@ POINTWISE = {
     'Real': (('arg',), [(3,)]), 'Imag': (('arg',), [(3,)]), 'Conjugate': (('arg',), [(3,)]),
     'BoolToInt': (('arg',), [(0,)]), 'IntToFloat': (('arg',), [(1,)]), 'FloatToComplex': (('arg',), [(2,)]),
     'Sin': (('arg',), [(2,), (3,)]), 'Exp': (('arg',), [(2,), (3,)]), 'Reciprocal': (('arg',), [(2,), (3,)]),
+    **{c: (('arg',), [(2,), (3,)]) for c in ('Cos', 'Tan', 'ArcSin', 'ArcCos', 'ArcTan', 'CosH', 'SinH', 'TanH', 'ArcTanH', 'Log')},
     'ArcTan2': (('x', 'y'), [(a, b) for a in range(3) for b in range(3)]),
 }
 # FloorDivide of complex operands is ACCEPTED by FloorDivide.dtype (Mod rejects it) but numpy has no complex floor_divide: evaluation
 # raises TypeError.  Candidate defect (notes/C06-c06b.md); the configuration is parked so that the check stays green.
-PARKED = [('FloorDivide', (3, 3))]
+PARKED = [('FloorDivide', (3, 3))]  # + SignBool (Sign of a boolean array), see contracts()
 
 
 def pointwise_contracts(parked=False):
@@ -1103,7 +1304,7 @@ def meta_contracts():
     cs += [Einsum(args=a, out=o) for a, o in (
         (((0, 1), (1,)), (0,)), (((0, 1), (1, 2)), (0, 2)), (((0,), (0,)), (0,)), (((0, 1),), (1, 0)), (((0, 1, 2), (2, 1)), (0,)),
         (((0,), (1,), (2,)), (2, 0, 1)), (((0, 0),), (0,)), (((0, 1), (0, 1)), ()))]
-    cs += [TakeBadIndex(rank=1, irank=1)]
+    cs += [TakeBadIndex(rank=1, irank=1, index='non-int')]
     cs += [Inflate(rank=r, drank=d) for r, d in ((1, 0), (1, 1), (2, 1), (2, 2), (3, 1), (3, 2), (0, 0))]
     cs += _ranks(Diagonalize, (1, 2))
     cs += [Polyval(prank=a, crank=b, nvars=n) for a, b, n in ((1, 1, 1), (2, 1, 2), (1, 2, 0), (2, 2, 3), (3, 1, 2))]
@@ -1113,6 +1314,9 @@ def meta_contracts():
     cs += _ranks(Choose, (0, 1, 2))
     cs += [SearchSorted(rank=r, sorter=so, side=si) for r, so, si in ((0, False, 'left'), (1, False, 'right'), (2, True, 'left'), (1, True, 'right'))]
     cs += _ranks(LoopSum, (0, 1, 2)) + _ranks(LoopConcatenate, (1, 2))
+    cs += [LoopConcatenateHelper(rank=r, chunk=c) for r in (1, 2) for c in ('constant', 'varying')]
+    cs += _ranks(Multiply, (0, 1, 2)) + _ranks(Add, (0, 1, 2)) + _ranks(Power, (0, 1, 2)) + _ranks(Sign, (1, 2)) + [SignRejected(rank=1, kind='complex')]
+    cs += [Zeros(rank=r, kind=k) for r, k in ((0, 2), (1, 0), (2, 1), (3, 3))] + _ranks(Guard, (0, 2)) + _ranks(WithDerivative, (0, 2))
     cs += _ranks(ArgSort, (1, 2)) + [UniqueMask(rank=1), UniqueInverse(), Find(), SizesToOffsets()]
     return cs
 
@@ -1121,7 +1325,7 @@ def contracts():
     import os
     cs = meta_contracts() + pointwise_contracts() + arguments_contracts() + function_array_contracts()
     if os.environ.get('VERIF_C06B_PARKED'):  # experiments: the parked contracts fail on the unchanged tree (candidate defects)
-        cs += pointwise_contracts(parked=True) + function_array_contracts(parked=True)
+        cs += pointwise_contracts(parked=True) + function_array_contracts(parked=True) + [SignBool(rank=1, kind='bool')]
     return cs
 
 
